@@ -1651,4 +1651,94 @@ theorem load_without_scripts (env : PathEnv) (dir : PyStr) (data : List (Name ×
   unfold rewriteScripts
   rcases hs with h | h <;> simp [h]
 
+/-! ### round-6 cross-audit: non-vacuity witnesses (appended by the auditor; no theorem above is changed) -/
+
+/-- the state reached by a real history with an ACTING listener (1: on a = 5 sets b = 5) and a rejecting one (3) -/
+def auditOps : List Op :=
+  [.addOption 0 .int (.a (.i 0)), .addOption 1 .int (.a (.i 0)),
+   .subscribe ⟨1, some [0], fun _ _ => false,
+     fun s _ => if (lookup s 0).any (fun o => pyEq o.cur (.a (.i 5))) then some [(1, .a (.i 5))] else none⟩,
+   .subscribe ⟨3, some [0], fun s _ => (lookup s 0).any (fun o => pyEq o.cur (.a (.i 5))), fun _ _ => none⟩,
+   .update [(0, .a (.i 4))]]
+
+/-- `nested_rejected_update_over_histories`: both hypotheses hold after that history (a real OptionsError, a quiet
+    rollback notification), and the accepted update before it really changed the store -/
+example :
+    (stepN (runN auditOps).1 (.updateKnown [(0, .a (.i 5))])).out = .optionsError ∧
+    quiet (([(0, Val.a (.i 5))].filter fun kv => hasKey (runN auditOps).1.opts kv.1).map (·.1)) (runN auditOps).1.opts
+      (runN auditOps).1.listeners = true ∧
+    (runN auditOps).1.opts.map (fun p => p.2.cur) = [.a (.i 4), .a (.i 0)] := by decide
+
+/-- `nested_rejected_update_restores_everything_quiet`: hypotheses on the seeded scenario (nested assignment of b discarded) -/
+example :
+    (updateKnownN nestedState [(0, .a (.i 5))]).out ≠ .ok ∧
+    quiet (([(0, Val.a (.i 5))].filter fun kv => hasKey nestedState.opts kv.1).map (·.1)) nestedState.opts nestedState.listeners = true := by
+  decide
+
+/-- `rejected_update_restores_everything` on the other update-family operations: a `set` whose value string is refused
+    for the type (OptionsError), a `set` rejected by a listener, an ill-typed `update_defer`, a `merge` of a list into a scalar -/
+example :
+    let st : St := ⟨[(0, ⟨.int, .a (.i 0), .a (.i 7)⟩), (1, ⟨.bool, .a (.b false), .a (.b false)⟩)], [], [],
+      [⟨1, none, fun s _ => (lookup s 1).any (fun o => pyEq o.cur (.a (.b true))), fun _ _ => none⟩]⟩
+    isUpdateOp (.set [(0, some [120])] false) = true ∧ (step st (.set [(0, some [120])] false)).out = .optionsError ∧
+    (step st (.set [(1, none), (0, some [57])] false)).out = .optionsError ∧
+    (step st (.set [(1, none), (0, some [57])] false)).st.opts = st.opts ∧
+    (step st (.updateDefer [(0, .a (.s [120])), (9, .a .none)])).out = .typeError ∧
+    (step st (.merge [(0, .seq [.s [97]])])).out = .typeError := by decide
+
+/-- `nested_model_agrees_with_flat`: `Passive` holds for listeners that only accept or reject (here: the F-C44c state) -/
+example : Passive cexState.listeners := by
+  intro l hl s u
+  simp [cexState, St.listeners] at hl
+  rcases hl with rfl | rfl <;> rfl
+
+/-- … and fails for an acting listener, on which the two models really differ (what listener 3 is shown: b = 5 vs b = 0) -/
+example :
+    ((stepN nestedState (.update [(0, .a (.i 5))])).obs.map fun ob => ob.seen.map fun p => p.2.cur) ≠
+    ((step nestedState (.update [(0, .a (.i 5))])).obs.map fun ob => ob.seen.map fun p => p.2.cur) := by decide
+
+/-- `config_roundtrip_nondefault_partial`: the guard and `NelLaw` are satisfiable together on a history with YAML-special
+    words, a newline, non-ASCII text, a sequence and an optional int set to None and back -/
+def auditCfgOps : List Op :=
+  [.addOption 0 .str (.a (.s [])), .addOption 1 .seqStr (.seq []), .addOption 2 .optInt (.a .none), .addOption 3 .bool (.a (.b true)),
+   .update [(0, .a (.s [0x6e, 0x75, 0x6c, 0x6c])), (1, .seq [.s [0x79, 0x65, 0x73], .s [0x61, 0x0a, 0x27, 0x22], .s [0xc3, 0xa9]]),
+            (2, .a (.i (-3))), (3, .a (.b false))]]
+
+example : Reproduces (run auditCfgOps).1.opts (saveLoad nelYaml (run auditCfgOps).1.opts) :=
+  config_roundtrip_nondefault_partial nelYaml nelYaml_law auditCfgOps (by decide)
+
+example : (saveData (run auditCfgOps).1.opts).length = 4 := by decide
+
+/-- the round trip ALSO holds for histories of the nested model (the one the driver executes): same proof, from the
+    invariants of `runN` — stated here as a checked instance because no named theorem says it -/
+example {Text : Type} (Y : Yaml Text) (law : ∀ d, Y.parse (Y.dump d) = some d) (ops : List Op) :
+    Reproduces (runN ops).1.opts (saveLoad Y (runN ops).1.opts) :=
+  reproduces_of_parse Y _ (inv_runN ops).1 (inv_runN ops).2 (law _)
+
+/-- `parse_setval_typed` / `set_never_type_error`: value strings that parse (Arabic-Indic digits with an underscore and
+    surrounding blanks, `toggle`) and one that is refused -/
+example : parseSetval ⟨.optInt, .a .none, .a .none⟩ [[32, 0x663, 95, 0x664, 32]] = some (.a (.i 34)) ∧
+    parseSetval ⟨.bool, .a (.b false), .a (.b true)⟩ [strToggle] = some (.a (.b false)) ∧
+    parseSetval ⟨.int, .a (.i 0), .a (.i 0)⟩ [[49, 95, 95, 48]] = none := by decide
+
+/-- `load_makes_scripts_absolute`: hypotheses and the first alternative on a config with three script entries -/
+example :
+    let env : PathEnv := ⟨some [47, 104], fun _ => none, [47, 119]⟩
+    let data : List (Name × Val) := [(0, .a (.i 1)), (scriptsName, .seq [.s [97, 46, 112, 121], .s [126, 47, 98], .s [47, 120]])]
+    (parsePath env.getcwd).root.isEmpty = false ∧
+    (rewriteScripts env [47, 99, 102, 103] data).toOption =
+      some [(0, .a (.i 1)), (scriptsName, .seq [.s [47, 99, 102, 103, 47, 97, 46, 112, 121], .s [47, 104, 47, 98], .s [47, 120]])] := by
+  decide +kernel
+
+/-- … and the second alternative: a non-str entry is a TypeError and nothing is loaded -/
+example :
+    let env : PathEnv := ⟨some [47, 104], fun _ => none, [47, 119]⟩
+    (loadN env nestedState (some [47, 99]) [(scriptsName, .seq [.s [97], .i 1])]).out = .typeError ∧
+    (loadN env nestedState (some [47, 99]) [(scriptsName, .seq [.s [97], .i 1])]).st.opts = nestedState.opts := by decide +kernel
+
+/-- `relative_path_of_plain`: its three hypotheses on `sub/a.py` relative to `/etc/mitm` -/
+example : (parsePath [115, 117, 98, 47, 97]).root.isEmpty = true ∧
+    (∀ f ∈ (parsePath [115, 117, 98, 47, 97]).parts.head?, f.head? ≠ some 126) ∧
+    (parsePath [47, 101, 116, 99]).root.isEmpty = false := by decide
+
 end MitmVerif.Props.C44
